@@ -182,18 +182,32 @@ def part_multipart(chk, ex):
     from mirsym.runner import REPO
     hv_ = _re.search(r'name = "http"\nversion = "([^"]+)"', open(os.path.join(REPO, 'Cargo.lock')).read()).group(1)
     for p_ in glob.glob(os.path.expanduser(f'~/.cargo/registry/src/*/http-{hv_}/src/request.rs')): ex.L.add_source(p_, only={'Parts'})
+    chunk_len, limit = z3.BitVec('chunk_len', 64), z3.BitVec('body_limit', 64)
     def h(ex):
         seen.clear()
+        AM.Yielder.emitted = []
         hm = httpmodel.HMap([('content-type', httpmodel.HV(ct_text, ascii_ok, present))])
-        req = httpmodel.Request(headers=hm, body=Opaque('request-body'))
-        fut = ex.call_fn(F, [Ref(Cell(Opaque('rqctx'))), req])
+        chunk = AM.Bytes('the-request-body', chunk_len)
+        body = AM.Body([('data', chunk)])
+        req = httpmodel.Request(headers=hm, body=body)
+        server = ex.mk_struct_partial('DropshotState', config=ex.mk_struct_partial('ServerConfig', default_request_body_max_bytes=limit))
+        rqctx = ex.mk_struct_partial('RequestContext', server=Ref(Cell(server)), endpoint=ex.mk_struct_partial('RequestEndpointMetadata', request_body_max_bytes=ex.none()))
+        fut = ex.call_fn(F, [Ref(Cell(rqctx)), req])
         cell = AM.pinned(fut)
         if isinstance(cell.v, Ref): cell = cell.v.cell
         r = AM.drive(ex, cell)
-        return r, dict(seen)
+        sn = dict(seen)
+        st = sn.get('stream')
+        if r.discr == 0 and st is not None:
+            st = dv(st)
+            if isinstance(st, Opaque) and st.tag == 'data-stream': sn['reads_this_body'] = dv(st.payload) is body
+            else:
+                item = AM.stream_next(ex, st)
+                sn['reads_this_body'] = item is not None and item.discr == 0 and ex.payload(item) is chunk
+        return r, sn
     ex.models = local + ex.models
     try:
-        outs = ex.explore(h, [])
+        outs = ex.explore(h, [z3.ULE(chunk_len, limit)])
     finally:
         ex.models = ex.models[len(local):]
     chk.paths += len(outs)
@@ -209,7 +223,7 @@ def part_multipart(chk, ex):
             kinds.add('ok')
             b = sn.get('boundary')
             flow = isinstance(b, Opaque) and b.tag == 'rfc2046-boundary-of' and isinstance(b.payload, SymStr) and b.payload.term.eq(ct_text.term) \
-                and isinstance(sn.get('stream'), Opaque) and dv(sn['stream'].payload) is not None
+                and sn.get('reads_this_body') is True
             m = chk.prove('multipart/boundary-is-the-content-types-boundary-parameter', pc, z3.Or(z3.Not(good_in), z3.BoolVal(not flow)))
         else:
             kinds.add('err')
